@@ -36,8 +36,6 @@ use vh::report::Tier;
 mod tokens;
 #[path = "../shared/fee_target.rs"]
 mod fee_target;
-#[path = "../shared/zz_bad_fwd.rs"]
-mod zz_bad_fwd;
 #[path = "/repo/examples/fee-forwarder-permissionless/src/contract.rs"]
 mod permissionless_example;
 #[path = "/repo/examples/fee-forwarder-permissioned/src/contract.rs"]
@@ -81,12 +79,15 @@ const TGTS: [Tgt; 3] = [Tgt::G, Tgt::G2, Tgt::B];
 enum TFn {
     Ping,
     Act,
+    /// only in "the other forward" of the authorization probes
+    Pong,
+    Act2,
 }
 
 #[derive(Clone, Debug, PartialEq, Eq)]
 enum Op {
     /// `rel` = exp - now when the operation was generated (kept for the outcome histogram)
-    Forward { user: Who, tok: usize, fee: i128, max: i128, exp: u32, rel: i64, tgt: Tgt, f: TFn },
+    Forward { user: Who, tok: usize, fee: i128, max: i128, exp: u32, rel: i64, tgt: Tgt, f: TFn, x: u32 },
     /// token T1: owner approves the forwarder (pre-existing allowance)
     Approve { owner: Who, amt: i128, live: u32 },
     Enable { tok: usize, operator: Who, signer: Who },
@@ -174,6 +175,8 @@ fn fn_name(f: TFn) -> &'static str {
     match f {
         TFn::Ping => "ping",
         TFn::Act => "act",
+        TFn::Pong => "pong",
+        TFn::Act2 => "act2",
     }
 }
 
@@ -299,11 +302,11 @@ impl Fw {
 
     /// (fn name, args) of the forwarded call
     fn target_call(&self, i: &Inst, op: &Op) -> (&'static str, SVec<Val>) {
-        let Op::Forward { user, f, .. } = op else { unreachable!() };
+        let Op::Forward { user, f, x, .. } = op else { unreachable!() };
         let e = &i.e;
         match f {
-            TFn::Ping => ("ping", (X,).into_val(e)),
-            TFn::Act => ("act", (i.addr(*user), X).into_val(e)),
+            TFn::Ping | TFn::Pong => (fn_name(*f), (*x,).into_val(e)),
+            TFn::Act | TFn::Act2 => (fn_name(*f), (i.addr(*user), *x).into_val(e)),
         }
     }
 
@@ -444,27 +447,24 @@ impl Fw {
     }
 
     /// The authorization part of the property, for a forward that succeeded in recording mode.
+    ///
+    /// For each of the six components the user is said to authorize, trees that differ from the
+    /// demanded ones in exactly that component are built in two ways: (1) by recording what the
+    /// user would have to sign for the *other* forward (same call, one component changed) on a
+    /// scratch instance of the pre-state, (2) by replacing the value inside the recorded tree
+    /// (root call only / whole tree). The original call must be refused under each of them.
     fn auth_probes(&self, post: &Inst, op: &Op, recs: &[Rec], cx: &mut StepCtx<Self>) -> Result<(), Violation> {
-        let Op::Forward { user, tok, max, exp, tgt, f, .. } = op else { return Ok(()) };
+        let Op::Forward { user, tok, fee, max, exp, rel, tgt, f, x } = op.clone() else { return Ok(()) };
         let i2 = cx.rebuild();
         let e = &i2.e;
         let pre = self.key(&i2);
-        let user_sc = auth::sc(&i2.addr(*user));
-        let full: Vec<ScVal> = self.fwd_args(&i2, op).iter().map(|v| to_sc(e, v)).collect();
-        let (_, targs) = self.target_call(&i2, op);
-        let other_tok = (*tok + 1) % 2;
-        // (what, value in the call, value in the tampered tree)
-        let dims: Vec<(&str, ScVal, ScVal)> = vec![
-            ("fee token", sc_addr(&i2.toks[*tok]), sc_addr(&i2.toks[other_tok])),
-            ("max_fee_amount", to_sc(e, (*max).into_val(e)), to_sc(e, (if *max == i128::MAX { *max - 1 } else { *max + 1 }).into_val(e))),
-            ("expiration_ledger", ScVal::U32(*exp), ScVal::U32(exp.saturating_add(1))),
-            ("target contract", sc_addr(&i2.target(*tgt)), sc_addr(&i2.target(Tgt::G2))),
-            ("target fn", sc_sym(fn_name(*f)), sc_sym("pong")),
-            ("target argument", ScVal::U32(X), ScVal::U32(X + 1)),
-        ];
-        // the user's own entry: signed by the user and not the plain root call of the relayer
-        let is_user_entry = |r: &Rec| r.0 == user_sc && root_args(&r.1) != full;
-        let user_entries: Vec<&Rec> = recs.iter().filter(|r| is_user_entry(r)).collect();
+        let user_sc = auth::sc(&i2.addr(user));
+        let full_of = |i: &Inst, o: &Op| -> Vec<ScVal> { self.fwd_args(i, o).iter().map(|v| to_sc(&i.e, v)).collect() };
+        let full = full_of(&i2, op);
+        // the user's own entries: signed by the user and not the plain root call (the relayer's)
+        let user_entries_of = |rs: &[Rec], full: &Vec<ScVal>| -> Vec<Rec> { rs.iter().filter(|r| r.0 == user_sc && root_args(&r.1) != *full).cloned().collect() };
+        let user_entries = user_entries_of(recs, &full);
+        let others: Vec<Rec> = recs.iter().filter(|r| !user_entries.contains(r)).cloned().collect();
         ensure!(
             !user_entries.is_empty(),
             "auth-coverage",
@@ -472,28 +472,31 @@ impl Fw {
             op,
             auth::names(e, recs)
         );
-        let args_vec = to_sc(e, targs.into_val(e));
-        for (what, v, _) in dims.iter().chain([("target args", args_vec.clone(), ScVal::Void)].iter()) {
-            ensure!(
-                user_entries.iter().any(|r| inv_mentions(&r.1, v)),
-                "auth-coverage",
-                "{:?}: the tree the user has to sign does not mention the {} ({:?})",
-                op,
-                what,
-                v
-            );
-        }
-        cx.stats.count("auth.coverage-checks", 7);
-        if user_entries.iter().any(|r| has_sub_on(&r.1, &auth::sc(&i2.toks[*tok]))) {
+        if user_entries.iter().any(|r| has_sub_on(&r.1, &auth::sc(&i2.toks[tok]))) {
             cx.stats.count("auth.user-tree-with-approve", 1);
         } else {
             cx.stats.count("auth.user-tree-without-approve", 1);
         }
-        let refused = |label: &str, set: &[Rec], cx: &mut StepCtx<Self>| -> Result<(), Violation> {
+        let other_tok = (tok + 1) % 2;
+        let max2 = if max == i128::MAX { max - 1 } else { max + 1 };
+        let f2 = match f {
+            TFn::Ping | TFn::Pong => TFn::Pong,
+            TFn::Act | TFn::Act2 => TFn::Act2,
+        };
+        let mk = |tok: usize, max: i128, exp: u32, tgt: Tgt, f: TFn, x: u32| Op::Forward { user, tok, fee, max, exp, rel, tgt, f, x };
+        // (component, value in the call, value in the tampered tree, the other forward)
+        let dims: Vec<(&str, ScVal, ScVal, Op)> = vec![
+            ("fee token", sc_addr(&i2.toks[tok]), sc_addr(&i2.toks[other_tok]), mk(other_tok, max, exp, tgt, f, x)),
+            ("max_fee_amount", to_sc(e, max.into_val(e)), to_sc(e, max2.into_val(e)), mk(tok, max2, exp, tgt, f, x)),
+            ("expiration_ledger", ScVal::U32(exp), ScVal::U32(exp.saturating_add(1)), mk(tok, max, exp.saturating_add(1), tgt, f, x)),
+            ("target contract", sc_addr(&i2.target(tgt)), sc_addr(&i2.target(Tgt::G2)), mk(tok, max, exp, Tgt::G2, f, x)),
+            ("target fn", sc_sym(fn_name(f)), sc_sym(fn_name(f2)), mk(tok, max, exp, tgt, f2, x)),
+            ("target argument", ScVal::U32(x), ScVal::U32(x + 1), mk(tok, max, exp, tgt, f, x + 1)),
+        ];
+        let refused = |label: &str, set: &[Rec]| -> Result<(), Violation> {
             let r = call_with(e, &i2.fwd, "forward", self.fwd_args(&i2, op), set);
-            ensure!(r.is_err(), "authorization", "{:?} succeeded under enforcing authorization with: {}", op, label);
+            ensure!(r.is_err(), "authorization", "{:?} succeeded under enforcing authorization although {}", op, label);
             ensure!(self.key(&i2) == pre, "failure-atomicity", "{:?} refused ({}) but storage changed", op, label);
-            let _ = cx;
             Ok(())
         };
         // a demanded principal missing / replaced by a bystander
@@ -501,22 +504,63 @@ impl Fw {
             if v.expect_ok {
                 continue;
             }
-            refused(&v.label, &v.recs, cx)?;
+            refused(&format!("authorizations: {}", v.label), &v.recs)?;
             cx.stats.count(if v.label.starts_with("drop") { "auth.drop-refused" } else { "auth.bystander-refused" }, 1);
         }
-        // the user signed a tree that differs in exactly one of the six components
-        for (what, from, to) in &dims {
-            let mut prev: Option<Vec<Rec>> = None;
+        for (what, from, to, op2) in &dims {
+            let mut tried: Vec<Vec<Rec>> = vec![];
+            // (1) what the user signs for the other forward
+            let scratch = cx.rebuild();
+            let other = match call_mocked(&scratch.e, &scratch.fwd, "forward", self.fwd_args(&scratch, op2)) {
+                Ok(_) => Some(user_entries_of(&auth::recorded(&scratch.e), &full_of(&scratch, op2))),
+                Err(_) => None,
+            };
+            drop(scratch);
+            match &other {
+                Some(ue2) => {
+                    ensure!(
+                        *ue2 != user_entries,
+                        "authorization",
+                        "{:?}: what the user has to sign for this forward is exactly what the user has to sign for {:?} - the user's authorization does not cover the {}",
+                        op,
+                        op2,
+                        what
+                    );
+                    let set: Vec<Rec> = others.iter().cloned().chain(ue2.iter().cloned()).collect();
+                    refused(&format!("the user signed for another {what}: {op2:?}"), &set)?;
+                    cx.stats.count("auth.signed-for-other-forward-refused", 1);
+                    tried.push(set);
+                }
+                None => {
+                    // the other forward is not executable here (e.g. the other token is not on the
+                    // list): the component must at least occur in the tree the user signs
+                    ensure!(
+                        user_entries.iter().any(|r| inv_mentions(&r.1, from)),
+                        "auth-coverage",
+                        "{:?}: the tree the user has to sign does not mention the {} ({:?})",
+                        op,
+                        what,
+                        from
+                    );
+                    cx.stats.count("auth.static-coverage-checks", 1);
+                }
+            }
+            // (2) the recorded tree with the value replaced
             for deep in [false, true] {
                 let t: Vec<Rec> =
-                    recs.iter().map(|r| if is_user_entry(r) { (r.0.clone(), subst_inv(&r.1, from, to, deep)) } else { r.clone() }).collect();
-                if t == recs || prev.as_ref() == Some(&t) {
+                    recs.iter().map(|r| if user_entries.contains(r) { (r.0.clone(), subst_inv(&r.1, from, to, deep)) } else { r.clone() }).collect();
+                let mut sorted_eq = false;
+                for prev in &tried {
+                    if prev.len() == t.len() && prev.iter().all(|r| t.contains(r)) {
+                        sorted_eq = true;
+                    }
+                }
+                if t == recs || sorted_eq {
                     continue;
                 }
-                let label = format!("user's signed tree has another {what} ({})", if deep { "whole tree" } else { "root call only" });
-                refused(&label, &t, cx)?;
-                cx.stats.count("auth.tampered-refused", 1);
-                prev = Some(t);
+                refused(&format!("the user's signed tree has another {what} ({})", if deep { "whole tree" } else { "root call only" }), &t)?;
+                cx.stats.count("auth.tampered-tree-refused", 1);
+                tried.push(t);
             }
         }
         // exactly the demanded set
@@ -559,6 +603,7 @@ impl Fw {
                                     rel: *exp as i64 - now as i64,
                                     tgt: *tgt,
                                     f: self.tf,
+                                    x: X,
                                 });
                             }
                         }
@@ -603,10 +648,7 @@ impl World for Fw {
             auth::back(&e, a);
         }
         let fwd = match self.flavour {
-            Flavour::Permissionless => match std::env::var("C19_SEEDED").ok().and_then(|s| s.parse::<u32>().ok()) {
-                Some(k) => e.register(zz_bad_fwd::BadFwd, (k,)),
-                None => e.register(permissionless_example::FeeForwarder, ()),
-            },
+            Flavour::Permissionless => e.register(permissionless_example::FeeForwarder, ()),
             Flavour::Permissioned => {
                 let mut ex: SVec<Address> = SVec::new(&e);
                 ex.push_back(r.clone());
@@ -667,7 +709,7 @@ impl World for Fw {
                 // leaf probes: is the token accepted as fee token?
                 let toks: Vec<usize> = (0..self.nt()).collect();
                 for tok in toks {
-                    v.push(Op::Forward { user: Who::U, tok, fee: 1, max: 5, exp: now, rel: 0, tgt: Tgt::G, f: self.tf });
+                    v.push(Op::Forward { user: Who::U, tok, fee: 1, max: 5, exp: now, rel: 0, tgt: Tgt::G, f: self.tf, x: X });
                 }
             }
         }
@@ -845,10 +887,10 @@ fn main() {
         |tier: Tier, r: &mut Runner| {
             let th = tier == Tier::Thorough;
             for flavour in [Flavour::Permissionless, Flavour::Permissioned] {
-                // (depth, wall cap) per world; worst case of all caps: quick 42 s, thorough 560 s
+                // (depth, wall cap) per world; worst case of all caps: quick 44 s, thorough 560 s
                 let (depth, wall) = match flavour {
-                    Flavour::Permissionless => (tier.pick(5, 6), tier.pick(5, 50)),
-                    Flavour::Permissioned => (tier.pick(3, 4), tier.pick(14, 210)),
+                    Flavour::Permissionless => (tier.pick(5, 6), tier.pick(4, 50)),
+                    Flavour::Permissioned => (tier.pick(3, 4), tier.pick(16, 210)),
                 };
                 for tf in [TFn::Ping, TFn::Act] {
                     r.world(&Fw { flavour, mode: Mode::Forwards, tf, thorough: th }, &Bounds::new(depth, wall));
@@ -877,7 +919,9 @@ fn main() {
                     "auth.full-set-ok",
                     "auth.drop-refused",
                     "auth.bystander-refused",
-                    "auth.tampered-refused",
+                    "auth.signed-for-other-forward-refused",
+                    "auth.tampered-tree-refused",
+                    "auth.static-coverage-checks",
                     "auth.user-tree-with-approve",
                     "auth.user-tree-without-approve",
                     "refused.token-not-on-list",
